@@ -262,6 +262,10 @@ def peeked_some(conds, cur):
 def value_range(conds, e):
     """small value-range inference for u8 expressions from ASCII class predicates that dominate the site"""
     lo, hi = 0, 255
+    if e[0] == "call" and e[1].split("::")[-1] in ("from", "into") and ("From<bool>" in str(e[2]) or "Into<" in str(e[2]) and "for bool" in str(e[2])):
+        lo, hi = 0, 1  # integer from bool: 0 or 1
+    if e[0] == "cast" and len(e) > 2 and "bool" in str(e[-1]):
+        pass
     for c, v, _ in conds:
         if c[0] == "call" and v is True and c[3] and sym.norm(c[3][0]) == e:
             nm = c[1].split("::")[-1]
@@ -429,7 +433,105 @@ class Discharger:
         r = self._try(s)
         if r or s.extra.get("ctx"):
             return r
-        return self.try_in_callers(s)
+        return self.try_in_callers(s) or self.try_in_closure_parent(s)
+
+    # combinators that run their callback at once and only when their receiver has the given shape
+    GUARDED_CALLBACKS = {
+        "core::bool::then": ("bool", True),
+        "core::option::Option::map": ("core::option::Option", 1), "core::option::Option::and_then": ("core::option::Option", 1),
+        "core::option::Option::filter": ("core::option::Option", 1), "core::option::Option::inspect": ("core::option::Option", 1),
+        "core::option::Option::is_some_and": ("core::option::Option", 1),
+        "core::result::Result::map": ("core::result::Result", 0), "core::result::Result::and_then": ("core::result::Result", 0),
+        "core::result::Result::inspect": ("core::result::Result", 0), "core::result::Result::is_ok_and": ("core::result::Result", 0),
+        "core::result::Result::map_err": ("core::result::Result", 1), "core::result::Result::or_else": ("core::result::Result", 1),
+        "core::result::Result::inspect_err": ("core::result::Result", 1),
+    }
+
+    def closure_uses(self, body):
+        """(parent body, call, index of the closure among the call's arguments, captured expressions) for each place a closure is handed to a call"""
+        if not hasattr(self, "_closure_uses"):
+            self._closure_uses = {}
+            for b in self.unit.bodies:
+                S = self.S(b.mir)
+                for c in b.calls():
+                    for i, a in enumerate(c.args):
+                        e = sym.norm(S.operand(a))
+                        if e[0] == "closure":
+                            self._closure_uses.setdefault(e[1], []).append((b, c, i, e[2]))
+        return self._closure_uses.get(body.npath) or self._closure_uses.get(body.npath.split("::", 1)[-1], [])
+
+    def try_in_closure_parent(self, s):
+        """C2: an obligation inside a closure that is handed directly to a combinator which runs it at once and only
+        under a condition on its receiver (`cond.then(|| ..)`, `opt.map(|x| ..)`, ...) is examined at that call:
+        captured variables are replaced by the parent's expressions, and the parent's dominating conditions plus the
+        combinator's own condition are added."""
+        b = s.body
+        if b.kind != "Closure" or s.kind not in ("assert", "call"):
+            return None
+        uses = self.closure_uses(b)
+        if len(uses) != 1:
+            return None
+        pb, call, idx, caps = uses[0]
+        g = self.GUARDED_CALLBACKS.get(facts.strip_generics(call.name))
+        if g is None or idx != 1:
+            return None
+        PS = self.S(pb.mir)
+        recv = sym.norm(PS.operand(call.args[0]))
+        if g[0] == "bool":
+            guard = (recv[2], False, call.bi) if recv[0] == "unop" and recv[1] == "Not" else (recv, True, call.bi)
+        else:
+            guard = (("discr", recv, g[0]), g[1], call.bi)
+        # the payload the combinator hands to the closure (its second parameter): the receiver's Some/Ok/Err payload; a
+        # filter/inspect in between passes the payload of its own receiver on unchanged
+        payload = None
+        extra_guards = []
+        if g[0] != "bool":
+            base = recv
+            while base[0] == "call" and base[1].split("::")[-1] in ("filter", "inspect", "inspect_err") and base[3]:
+                base = sym.norm(base[3][0])
+                extra_guards.append((("discr", base, g[0]), g[1], call.bi))
+            variant = {("core::option::Option", 1): "Some", ("core::result::Result", 0): "Ok", ("core::result::Result", 1): "Err"}[g]
+            payload = ("field", ("downcast", base, variant), "0")
+            if base[0] == "call" and base[1].split("::")[-1] in ("position", "rposition"):
+                extra_guards.append((("binop", "Ge", payload, ("int", 0, "usize")), True, call.bi))  # (names the index so that its axioms apply)
+        S = self.S(s.mir)
+        t = s.extra["term"]
+        ops_key = "ops" if s.kind == "assert" else "args"
+        exprs = [sym.norm(S.operand(o)) for o in t[ops_key]]
+
+        def sub(e):
+            if not isinstance(e, tuple) or not e or not isinstance(e[0], str):
+                return e
+            if e[0] == "field" and isinstance(e[1], tuple) and e[1][:2] == ("arg", 1) and str(e[2]).isdigit() and int(e[2]) < len(caps):
+                return caps[int(e[2])]
+            if e[0] == "arg" and e[1] == 2 and payload is not None:
+                return payload
+            if e[0] == "call":
+                return ("call", e[1], e[2], tuple(sub(a) for a in e[3]), call.bi)
+            out = []
+            for x in e:
+                if isinstance(x, tuple) and x and isinstance(x[0], str):
+                    out.append(sub(x))
+                elif isinstance(x, tuple):
+                    out.append(tuple(sub(y) for y in x))
+                else:
+                    out.append(x)
+            return tuple(out)
+
+        subbed = [sub(e) for e in exprs]
+        # the closure's own parameters (the payload the combinator hands over) are not known in the parent
+        if any(x[0] == "arg" and x[1] != 1 and not (x[1] == 2 and payload is not None) for e in exprs for x in sym.walk(e)):
+            return None
+        if any(x[0] == "arg" and x[1] == 1 and len(x) > 2 and x[2] is None for e in subbed for x in sym.walk(e)):
+            return None
+        own_conds = dom_conditions(s.mir, s.bi, S)
+        term = dict(t)
+        term[ops_key] = [{"k": "expr", "e": e, "ty": self.operand_ty(s.mir, o)} for e, o in zip(subbed, t[ops_key])]
+        ps = Site(pb, pb.mir, call.bi, s.kind, s.what, call.line, {"term": term, "ctx": True, "extra_conds": [(sub(e), v, call.bi) for e, v, _ in own_conds] + [guard] + extra_guards})
+        r = self._try(ps)
+        if not r:
+            return None
+        return "C2: the closure runs only inside %s at %s, where: %s" % (call.name.split("::")[-1], pb.npath.split("::")[-1], r)
 
     def callers_of(self, body):
         if not hasattr(self, "_callers"):
@@ -605,6 +707,17 @@ class Discharger:
             path = facts.strip_generics(t["callee"].get("path", ""))
             if nm in ("push", "extend_from_slice", "insert") and "alloc::vec" in path:
                 return "growable Vec append (no panic except allocation failure)"
+            if nm == "push" and "arrayvec" in path and len(args) == 2:
+                # ArrayVec::push panics exactly when the vector is full
+                for c, v, d in conds:
+                    if c[0] == "call" and c[1].split("::")[-1] == "is_full" and v is False and c[3] and sym.norm(c[3][0]) == args[0]:
+                        touched = False
+                        for b_ in blocks_between(mir, d, s.bi) - {s.bi}:
+                            tt = mir.blocks[b_]["term"]
+                            if tt["k"] == "call" and facts.strip_generics(tt["callee"].get("path", "")).split("::")[-1] not in ("is_full", "is_empty", "len", "capacity", "remaining_capacity") and any(args[0] in _subexprs(sym.norm(S.operand(a))) for a in tt["args"]):
+                                touched = True
+                        if not touched:
+                            return "guard: push on an ArrayVec that is_full() just denied, untouched in between (arrayvec contract: push panics only when full)"
             if nm == "unwrap":
                 src = args[0]
                 # I3 peek-then-next
@@ -645,6 +758,12 @@ class Discharger:
 
                     k2 = canon(self.expand(S, n_expr))
                     c2 = [(canon(self.expand(S, c_)), v_, d_) for c_, v_, d_ in conds]
+                    # a counter that starts at 0 and is incremented at most once per item of a loop over the cursor's own
+                    # remaining slice is at most that slice's length
+                    for v_ in {x for x in sym.walk(k2) if x[0] == "var"}:
+                        sl = self.slice_loop_counter(mir, S, v_[1])
+                        if sl is not None and canon(sl) == ln[3][0]:
+                            c2.append((("binop", "Le", v_, ln), True, src[4]))
                     if fresh:
                         F = _A.build(c2, [ln, k2], lambda e: self.expand(S, e), unsigned=[k2], stable=lambda a: True)
                         if F.proves_ge(ln, _A.untry(k2), 1):
@@ -737,6 +856,15 @@ class Discharger:
             if nm == "split_at":
                 if args[1][0] == "field" and "rposition" in repr(args[1]) and args[0] in _subexprs(self.expand(S, args[1])):
                     return "audit: split_at(index + 1) with index a position found in the same slice [trusted: index < len]"
+                # split_at(x, len(x) - k) with the subtraction checked (`checked_sub(..)?`, `Some(n) = checked_sub(..)`) or saturating
+                mid = self.expand(S, args[1])
+                while mid[0] == "field" and mid[1][0] == "downcast" and mid[1][2] in ("Continue", "Some") and str(mid[2]) == "0":
+                    mid = mid[1][1]
+                mid, _ = _strip_try(mid)
+                if mid[0] == "call" and mid[1].split("::")[-1] in ("checked_sub", "saturating_sub") and len(mid[3]) == 2:
+                    lx = is_len_of(self.expand(S, mid[3][0]))
+                    if lx is not None and (sym.norm(lx) == args[0] or _same_slice(lx, args[0])):
+                        return "split_at(len(slice) - k) with the difference taken by %s: at most len(slice)" % mid[1].split("::")[-1]
         if s.kind == "diverge":
             mac = t.get("mac") or []
             if "parser_unreachable" in mac:
@@ -1040,6 +1168,41 @@ class Discharger:
                             exceeded = tt["otherwise"]
                             if s.bi not in cfg.reachable(mir, exceeded):
                                 return k
+        return None
+
+    def slice_loop_counter(self, mir, S, l):
+        """local `l` is assigned only `0` and `l + 1`, and every cycle through the increment passes the `next` of one
+        slice iterator made from slice X (`for x in X` / `X.iter()`), which nothing else advances: l <= len(X). -> X"""
+        ds = [sym.norm(d) for d in S.defs_of(l)]
+        if len(ds) != 2:
+            return None
+        zero = [d for d in ds if d[0] == "int" and d[1] == 0]
+        inc = [d for d in ds if d[0] == "field" and d[1][0] == "binop" and d[1][1] in ("AddWithOverflow", "Add") and d[1][2][0] == "var" and d[1][2][1] == l and d[1][3][0] == "int" and d[1][3][1] == 1]
+        inc += [d for d in ds if d[0] == "binop" and d[1] == "Add" and d[2][0] == "var" and d[2][1] == l and d[3][0] == "int" and d[3][1] == 1]
+        if len(zero) != 1 or len(inc) != 1:
+            return None
+        inc_blocks = [bi for bi in mir.live_blocks() for st in mir.blocks[bi]["stmts"]
+                      if st["k"] == "assign" and st["place"]["l"] == l and not st["place"]["proj"] and not (st["rv"]["k"] == "use" and st["rv"]["a"]["k"] == "const")]
+        if len(inc_blocks) != 1:
+            return None
+        nexts = {}
+        for bi in mir.live_blocks():
+            t = mir.blocks[bi]["term"]
+            if t["k"] == "call":
+                rn = facts.strip_generics(t["callee"].get("resolved") or t["callee"].get("path", ""))
+                if rn.endswith("Iterator>::next") and "slice::Iter" in rn and t["args"]:
+                    it = sym.norm(S.operand(t["args"][0]))
+                    nexts.setdefault(it, []).append(bi)
+        for it, blocks in nexts.items():
+            if it[0] != "var" or len(blocks) != 1 or len(S.defs_of(it[1])) != 1:
+                continue
+            src = self.expand(S, it)
+            if not (src[0] == "call" and src[1].split("::")[-1] in ("into_iter", "iter") and len(src[3]) == 1):
+                continue
+            back = cfg.reachable(mir, mir.succs(inc_blocks[0]), avoid=set(blocks))
+            if inc_blocks[0] in back:
+                continue
+            return sym.norm(src[3][0])
         return None
 
     def per_advance_counter(self, mir, S, s):
